@@ -34,7 +34,7 @@ impl Property for C03 {
 
     fn runs(&self, tier: Tier) -> u64 {
         match tier {
-            Tier::Quick => 11 * 300,
+            Tier::Quick => 11 * 1200,
             Tier::Thorough => 11 * 6000,
         }
     }
